@@ -31,7 +31,7 @@ ASSUMPTIONS = ["a run is a deterministic, terminating program over its own batch
                "'Number of errors: -1' with zero executed lines (-lines window beyond the file) is outside the quantifier; recorded in C11_summary_exact"]
 
 _cache = {}
-TIMEOUT = 60
+TIMEOUT = 30
 
 EXPECTED_LOOPVARS = {
     ("BEGINN", "Input", 0), ("DT", "Input", 0), ("DT", "NewGlobalVarsMain", 0),
@@ -87,13 +87,13 @@ def _run(ctx):
     concs = (1, 2, 8)
     for ci, cl in enumerate(classes):
         for c in concs:
-            vs = rng.sample(valid, 3)
-            pos = rng.randint(0, 3)
-            batch = vs[:pos] + [cl] + vs[pos:]
-            if rng.random() < 0.3:
-                batch.append(vs[0])                      # a repeated valid line
-            jobs.append(lambda cl=cl, c=c, batch=batch: B.run_batch(
-                binary, ex, "m_%s_c%d" % (re.sub(r"\W", "_", cl), c), batch, pool, c, rng.choice((1, 4, 16)), timeout=TIMEOUT))
+            for pos in (range(4) if ctx.thorough else (rng.randint(0, 3),)):
+                vs = rng.sample(valid, 3)
+                batch = vs[:pos] + [cl] + vs[pos:]
+                if rng.random() < 0.3:
+                    batch.append(vs[0])                      # a repeated valid line
+                jobs.append(lambda cl=cl, c=c, batch=batch, pos=pos: B.run_batch(
+                    binary, ex, "m_%s_p%d_c%d" % (re.sub(r"\W", "_", cl), pos, c), batch, pool, c, rng.choice((1, 4, 16)), timeout=TIMEOUT))
     for c in concs + ((3, 16) if ctx.thorough else ()):
         batch = classes + valid + [valid[0]]
         rng.shuffle(batch)
@@ -102,6 +102,16 @@ def _run(ctx):
     batch = classes[:4] + valid
     rng.shuffle(batch)
     jobs.append(lambda batch=batch: B.run_batch(binary, ex, "win", batch, pool, 2, 4, lines_opt="2-6", timeout=TIMEOUT))
+    if ctx.thorough:     # the same fault mix under the race detector (supporting evidence)
+        try:
+            rbin = ctx.repo_bin("src/hermes2go", "hermes2go", race=True)
+            for c in (3, 8):
+                batch = classes + valid
+                rng.shuffle(batch)
+                jobs.append(lambda c=c, batch=batch: B.run_batch(rbin, ex, "race_all_c%d" % c, batch, pool, c, 4, timeout=600,
+                                                                 extra_env={"GORACE": "halt_on_error=0"}))
+        except BuildError as e:
+            _cache["race_build_error"] = str(e)[-600:]
     mixed = B.parallel(jobs, 6)
     after = B.tree_snapshot(ex)
     _cache.update(solo=solo, mixed=mixed, pool=pool, valid=valid, classes=classes, ex=ex, new_files=sorted(after - before))
@@ -167,6 +177,10 @@ def correspond(ctx):
         f = _solo_failed(e)
         errs[k] = bool(f)
     done = [e for e in list(r["solo"].values()) + r["mixed"] if not e.died()]
+    for e in list(r["solo"].values()) + r["mixed"]:
+        if e.died():
+            c.mismatches.append({"kind": "execution", "tag": e.tag, "what": "process did not finish normally (no model run to compare)",
+                                 "rc": e.rc, "timed_out": e.timed_out, "stderr": e.stderr[-500:]})
     bad, out2 = B.coq_dispatch_mismatches(ctx, "Cases_C11_dispatch", done, errs, ctx.seed)
     if bad is None:
         c.mismatches.append({"kind": "coq-eval", "shard": "Cases_C11_dispatch", "output": out2[-1500:]})
@@ -224,6 +238,10 @@ def oracle(ctx, search):
     solodig = {k: B.folder_digest(os.path.join(e.root, "l0")) for k, e in solo.items()}
     compared = 0
     for e in r["mixed"]:
+        if e.race_reports:
+            m = re.search(r"WARNING: DATA RACE.*?\n\s+(\S+)\(", e.stderr, re.S)
+            fails.append(Fail(key="data-race:%s" % (m.group(1) if m else "?"), what="race detector report",
+                              report=e.stderr[e.stderr.find("WARNING: DATA RACE"):][:1500], replay=_replay(e, pool)))
         if e.died():
             cls = [k for k in e.contents if k in r["classes"]]
             fails.append(Fail(key="mixed-batch:%s:%s" % (cls[0] if len(cls) == 1 else "all", "timeout" if e.timed_out else "process-died"),
